@@ -402,6 +402,8 @@ struct ExecClient {
     child: Option<(std::process::Child, std::io::BufReader<std::process::ChildStdout>)>,
     tier: Tier,
     pub crashes: u64,
+    /// a case did not answer within the per-case bound: the executor was killed (inconclusive, never a violation)
+    pub hung: bool,
 }
 impl ExecClient {
     fn new(tier: Tier) -> Self {
@@ -409,6 +411,7 @@ impl ExecClient {
             child: None,
             tier,
             crashes: 0,
+            hung: false,
         }
     }
     fn ensure(&mut self) {
@@ -434,17 +437,50 @@ impl ExecClient {
         if writeln!(stdin, "{}", line).is_err() || stdin.flush().is_err() {
             return None;
         }
+        // per-case watchdog: a case that does not answer within the bound is a hang of the code under test or
+        // of the harness; the executor is killed and the run reported inconclusive
+        let bound = std::env::var("DV_CASE_TIMEOUT").ok().and_then(|x| x.parse().ok()).unwrap_or(1800u64);
+        let pid = child.id();
+        let done = std::sync::Arc::new(std::sync::atomic::AtomicBool::new(false));
+        let fired = std::sync::Arc::new(std::sync::atomic::AtomicBool::new(false));
+        let (d2, f2) = (done.clone(), fired.clone());
+        let watchdog = std::thread::spawn(move || {
+            let start = Instant::now();
+            while !d2.load(std::sync::atomic::Ordering::Relaxed) {
+                if start.elapsed().as_secs() >= bound {
+                    f2.store(true, std::sync::atomic::Ordering::Relaxed);
+                    let _ = std::process::Command::new("kill").arg("-9").arg(pid.to_string()).status();
+                    break;
+                }
+                std::thread::sleep(std::time::Duration::from_millis(200));
+            }
+        });
         let mut resp = String::new();
-        match out.read_line(&mut resp) {
+        let res = match out.read_line(&mut resp) {
             Ok(n) if n > 0 => serde_json::from_str(&resp).ok(),
             _ => None,
+        };
+        done.store(true, std::sync::atomic::Ordering::Relaxed);
+        let _ = watchdog.join();
+        if fired.load(std::sync::atomic::Ordering::Relaxed) {
+            self.hung = true;
         }
+        res
     }
     /// runs a case in the executor; a dead executor is restarted and the case retried twice
     fn run<C: Serialize>(&mut self, case: &C, replay: bool) -> Outcome {
         let line = serde_json::to_string(&json!({"replay": replay, "case": case})).unwrap();
         for _ in 0..3 {
             if let Some(o) = self.try_run(&line) {
+                return o;
+            }
+            if self.hung {
+                if let Some((mut c, _)) = self.child.take() {
+                    let _ = c.kill();
+                    let _ = c.wait();
+                }
+                let mut o = Outcome::default();
+                o.discard = Some("case-hung".to_string());
                 return o;
             }
             self.crashes += 1;
@@ -588,6 +624,15 @@ fn worker<P: Property>(args: &Args, shard: usize, out_path: &str) -> i32 {
             let case = tree.current();
             ctx.case_index += 1;
             let out = run_case::<P>(&mut exec, &case, &ctx);
+            if exec.as_ref().map(|e| e.hung).unwrap_or(false) {
+                merged.inconclusive.push(format!(
+                    "a case did not finish within the per-case bound (shard {}, case {}): {}",
+                    shard,
+                    n,
+                    serde_json::to_string(&case).unwrap_or_default().chars().take(400).collect::<String>()
+                ));
+                break;
+            }
             let unknown = record::<P>(&mut merged, &case, &out, &ctx);
             if let Some(v) = unknown.first() {
                 // shrink: keep the same signature
